@@ -3,14 +3,31 @@
 (* replay emitter (one JSON line per quiescent behaviour when EMIT is set).    *)
 EXTENDS LfsConn, Json, IOUtils
 
+CONSTANTS EmSmallFills,   \* replay generation: how many transport reads of a behaviour take an arbitrary size
+          EmSizes,        \* ... the sizes they may take (besides 'everything available')
+          EmPong,         \* ... sizes a partial keep-alive reply write may take (besides 'the rest')
+          EmWacc          \* ... sizes a partial user write may take (besides 'the rest')
+
 ClsStream == {"ka", "tiny", "pkt", "bad", "ver9", "verX"}
 ClsSeg == {"ka", "tiny", "pkt", "bad"}
 ClsGate == {"ver9", "verX", "pkt"}
+ClsKa == {"ka"}
+ClsPong == {"ka", "tiny", "pkt"}
 ClsSmall  == {"ka", "pkt", "bad", "verX"}
 ClsShort  == {"ka", "pkt", "short"}
 ClsUdp    == {"ka", "pkt", "bad"}
 L48  == {4, 8}
 L4812 == {4, 8, 12}
+S1 == {1}
+S13 == {1, 3}
+S134 == {1, 3, 4}
+S13458 == {1, 3, 4, 5, 8}
+S_4_19_20 == {4, 19, 20}
+None == {}
+W48 == {4, 8}
+W4 == {4}
+W8_12 == {8, 12}
+W8 == {8}
 BothFlavors == {"blocking", "tokio"}
 OnlyTokio == {"tokio"}
 OnlyBlocking == {"blocking"}
@@ -33,22 +50,21 @@ L48_12_20 == {4, 8, 12, 20}
 SendFirst == (Len(sent') > Len(sent) \/ eof' # eof) => ~\E i \in DOMAIN hist : hist[i].a = "read"
 \* ... and only the first SmallFills transport reads of a behaviour take an arbitrary size;
 \* later ones deliver everything that is available (bounds the number of paths, not their shape)
-SmallFills == 3
-SmallSizes == {1, 3, 4, 5, 8}
 NFills == Cardinality({i \in DOMAIN hist : hist[i].a = "fill"})
-FillBudget == (Len(hist') > Len(hist) /\ hist'[Len(hist')].a = "fill" /\ NFills >= SmallFills)
+FillBudget == (Len(hist') > Len(hist) /\ hist'[Len(hist')].a = "fill" /\ NFills >= EmSmallFills)
                  => hist'[Len(hist')].n = Min2(Offered, Len(net))
 SizeBudget == (Len(hist') > Len(hist) /\ hist'[Len(hist')].a = "fill")
-                 => (hist'[Len(hist')].n \in SmallSizes \/ hist'[Len(hist')].n = Min2(Offered, Len(net)))
-PongBudget == (Len(hist') > Len(hist) /\ hist'[Len(hist')].a = "pongw") => hist'[Len(hist')].n \in {1, 4, pongleft}
-EmitNext == Next /\ SendFirst /\ FillBudget /\ SizeBudget /\ PongBudget
+                 => (hist'[Len(hist')].n \in EmSizes \/ hist'[Len(hist')].n = Min2(Offered, Len(net)))
+PongBudget == (Len(hist') > Len(hist) /\ hist'[Len(hist')].a = "pongw") => hist'[Len(hist')].n \in (EmPong \cup {pongleft})
+WaccBudget == (Len(hist') > Len(hist) /\ hist'[Len(hist')].a = "wacc") => hist'[Len(hist')].n \in (EmWacc \cup {wleft})
+EmitNext == Next /\ SendFirst /\ FillBudget /\ SizeBudget /\ PongBudget /\ WaccBudget
 EmitSpec == Init /\ [][EmitNext]_vars
 
 \* A behaviour is worth replaying when the reader is at rest and everything sent was consumed
-Done == Quiescent /\ (IsWs => wsq = <<>>) /\ Len(sent) = MaxFrames
+Done == Quiescent /\ (IsWs => wsq = <<>>) /\ Len(sent) = MaxFrames /\ nwrites = MaxWrites /\ pc # "write"
 
 \* ... and a behaviour ends when everything was consumed (and, if the peer closed, the close was observed)
-Finished == Done /\ (eof => pc = "closed")
+Finished == (Done /\ (eof => pc = "closed")) \/ pc = "dead"
 StopWhenFinished == ~Finished            \* ACTION_CONSTRAINT: no step out of a finished state
 
 Emit == IF "EMIT" \in DOMAIN IOEnv /\ Finished
